@@ -20,7 +20,8 @@
 // as witness.
 //
 //	rq <i|q> <route id> <hex of the request bytes>          one HTTP/1.1 request, sent as it is
-//	sq <i|q> <route id> <hex> <i|q>:<hex> …                  the same, after the requests that PREPARE it (stored data that a later read meets)
+//	sq <i|q> <route id> <hex> <i|q>:<hex> | w:<ms> …         the same, after the requests that PREPARE it (stored data that a later read meets;
+//	                                                         w = a pause in which the server's background loops run), then the flush calls
 //	ws <route id> <hex of the JSON text frame>               websocket routes: upgrade, one text frame, read until closed
 //	om <hex text> / ot <hex text>                            the OpenTSDB `m=` / time parsers against their Lean model (Model/OtsdbQuery.lean)
 //
@@ -46,6 +47,8 @@ import (
 	"strconv"
 	"strings"
 	"sync"
+	"sync/atomic"
+	"syscall"
 	"time"
 
 	otsdbquery "github.com/siglens/siglens/pkg/integrations/otsdb/query"
@@ -53,6 +56,7 @@ import (
 )
 
 var c17aWorkers = 4
+
 const c17aAnswerDeadline = 15 * time.Second
 const c17aProbeDeadline = 10 * time.Second
 
@@ -104,8 +108,6 @@ func (t *c17aTail) String() string {
 	return string(t.buf)
 }
 
-var c17aPool chan *c17aSB
-var c17aPoolOnce sync.Once
 var c17aAll []*c17aSB
 var c17aAllMu sync.Mutex
 
@@ -204,6 +206,20 @@ func (s *c17aSB) start() error {
 	return nil
 }
 
+// dump (debugging): the goroutines of a server that does not answer
+func (s *c17aSB) dump() {
+	if os.Getenv("C17A_DEBUG") == "" || s.cmd == nil || s.cmd.Process == nil || s.hasExited() {
+		return
+	}
+	s.cmd.Process.Signal(syscall.SIGQUIT)
+	select {
+	case <-s.exited:
+	case <-time.After(5 * time.Second):
+	}
+	time.Sleep(50 * time.Millisecond)
+	fmt.Fprintf(os.Stderr, "C17A goroutines of the server that does not answer:\n%s\n", s.stderr.String())
+}
+
 func (s *c17aSB) kill() {
 	s.dead = true
 	if s.cmd != nil && s.cmd.Process != nil {
@@ -235,11 +251,28 @@ func (s *c17aSB) flush() error {
 	}
 }
 
-func c17aGetSB() (*c17aSB, error) {
-	c17aPoolOnce.Do(func() {
-		c17aPool = make(chan *c17aSB, c17aWorkers)
+// One slot per server.  A generated line carries a ticket (`@<j>` behind its classes): line j goes to slot j mod n and
+// the lines of a slot run in ticket order, so that the sequence of requests every server sees is the same in every run
+// of the same op file (a death that needs state left by earlier lines can be replayed).  Lines without a ticket (the
+// corpus) take the slots round robin.
+type c17aSlot struct {
+	mu      sync.Mutex
+	cond    *sync.Cond
+	sb      *c17aSB
+	next    int // the ticket (divided by the number of slots) whose turn it is
+	started bool
+}
+
+var c17aSlots []*c17aSlot
+var c17aSlotsOnce sync.Once
+var c17aRR int64
+
+func c17aAcquire(ticket int) *c17aSlot {
+	c17aSlotsOnce.Do(func() {
 		for i := 0; i < c17aWorkers; i++ {
-			c17aPool <- nil // created on first use
+			sl := &c17aSlot{}
+			sl.cond = sync.NewCond(&sl.mu)
+			c17aSlots = append(c17aSlots, sl)
 		}
 		exitHooks = append(exitHooks, func() {
 			c17aAllMu.Lock()
@@ -252,28 +285,60 @@ func c17aGetSB() (*c17aSB, error) {
 			}
 		})
 	})
-	s := <-c17aPool
-	if s == nil || s.dead {
-		var err error
-		for try := 0; try < 3; try++ {
-			if s, err = c17aNewSB(); err == nil {
-				return s, nil
-			}
-		}
-		c17aPool <- nil
-		return nil, err
+	n := len(c17aSlots)
+	if ticket < 0 {
+		sl := c17aSlots[int(atomic.AddInt64(&c17aRR, 1))%n]
+		sl.mu.Lock()
+		return sl
 	}
-	return s, nil
+	sl := c17aSlots[ticket%n]
+	t := ticket / n
+	sl.mu.Lock()
+	if !sl.started { // the first ticket that reaches a slot is the smallest one of the file for it (lines start in file order)
+		sl.started, sl.next = true, t
+	}
+	// (a missing ticket — a line that was cut out of the file — must not stop the run: the wait is bounded)
+	deadline := time.Now().Add(45 * time.Second)
+	for sl.next < t && time.Now().Before(deadline) {
+		timer := time.AfterFunc(time.Second, func() {
+			sl.mu.Lock()
+			sl.cond.Broadcast()
+			sl.mu.Unlock()
+		})
+		sl.cond.Wait()
+		timer.Stop()
+	}
+	return sl
 }
 
-func c17aPutSB(s *c17aSB) {
-	if s != nil && s.dead {
-		if os.Getenv("C17A_KEEP") == "" {
-			os.RemoveAll(s.root)
+func (sl *c17aSlot) release(ticket int) {
+	if ticket >= 0 {
+		if t := ticket/len(c17aSlots) + 1; t > sl.next {
+			sl.next = t
 		}
-		s = nil
+		sl.cond.Broadcast()
 	}
-	c17aPool <- s
+	sl.mu.Unlock()
+}
+
+// server: the live server of the slot (a new sandbox when there is none or the last one is dead)
+func (sl *c17aSlot) server() (*c17aSB, error) {
+	if sl.sb != nil && !sl.sb.dead {
+		return sl.sb, nil
+	}
+	if sl.sb != nil && os.Getenv("C17A_KEEP") == "" {
+		os.RemoveAll(sl.sb.root)
+	}
+	sl.sb = nil
+	var err error
+	for try := 0; try < 3; try++ {
+		var s *c17aSB
+		if s, err = c17aNewSB(); err == nil {
+			sl.sb = s
+			return s, nil
+		}
+	}
+	return nil, err
 }
 
 // ---------------------------------------------------------------- one exchange
@@ -537,7 +602,14 @@ func c17aProbeReq() []byte {
 func c17aExec(line string) Result {
 	f := strings.Fields(line)
 	var classTags []string
-	if n := len(f); n > 0 && strings.HasPrefix(f[n-1], "#") { // the mutation classes of the line (distribution tags only)
+	ticket := -1
+	if n := len(f); n > 0 && strings.HasPrefix(f[n-1], "#") { // the mutation classes of the line (distribution tags only) and its ticket
+		if k := strings.LastIndex(f[n-1], "@"); k > 0 {
+			if t, err := strconv.Atoi(f[n-1][k+1:]); err == nil && t >= 0 {
+				ticket = t
+			}
+			f[n-1] = f[n-1][:k]
+		}
 		for _, c := range strings.Split(f[n-1][1:], "+") {
 			classTags = append(classTags, "mut:"+c)
 		}
@@ -572,6 +644,10 @@ func c17aExec(line string) Result {
 	if f[0] == "sq" {
 		for _, t := range f[4:] {
 			srv, hx, ok := strings.Cut(t, ":")
+			if ms, err := strconv.Atoi(hx); ok && srv == "w" && err == nil && ms >= 0 && ms <= 20000 { // w:<ms> = let the background loops run
+				preps = append(preps, prepT{"w", []byte(hx)})
+				continue
+			}
 			b, err := hex.DecodeString(hx)
 			if !ok || (srv != "i" && srv != "q") || err != nil || hx == "" {
 				return Result{Out: "bad-op"}
@@ -585,15 +661,12 @@ func c17aExec(line string) Result {
 		return Result{Out: "bad-op"}
 	}
 	route := f[len(f)-2]
-	s, err := c17aGetSB()
+	sl := c17aAcquire(ticket)
+	defer sl.release(ticket)
+	s, err := sl.server()
 	if err != nil {
 		return Result{Out: "boot-failed", Fails: []PropFail{{Sig: "alive/boot-failed", Msg: err.Error()}}, Tags: []string{"boot-failed"}}
 	}
-	defer func() {
-		if s != nil {
-			c17aPutSB(s)
-		}
-	}()
 	res := Result{Out: "ok", Nontrivial: len(classTags) != 1 || classTags[0] != "mut:valid"}
 	tags := append([]string{"route:" + route}, classTags...)
 	fail := func(sig, msg string) {
@@ -601,11 +674,9 @@ func c17aExec(line string) Result {
 	}
 	replace := func() bool {
 		s.kill()
-		c17aPutSB(s)
-		if s, err = c17aGetSB(); err != nil { // (the pool slot has been given back by c17aGetSB)
+		if s, err = sl.server(); err != nil {
 			res.Out = "boot-failed"
 			fail("alive/boot-failed", err.Error())
-			s = nil
 			return false
 		}
 		return true
@@ -622,6 +693,11 @@ func c17aExec(line string) Result {
 	}
 	witness := trunc(strconv.Quote(string(payload)), 1500)
 	for i, pr := range preps {
+		if pr.srv == "w" {
+			ms, _ := strconv.Atoi(string(pr.raw))
+			time.Sleep(time.Duration(ms) * time.Millisecond)
+			continue
+		}
 		pp := s.qport
 		if pr.srv == "i" {
 			pp = s.iport
@@ -683,6 +759,7 @@ func c17aExec(line string) Result {
 	}
 	// (1) the answer
 	if a.err != "" && dt >= c17aAnswerDeadline-time.Second {
+		s.dump()
 		fail("alive/"+route+"/no-answer", fmt.Sprintf("no answer within %v (%s); request: %s", c17aAnswerDeadline, a.err, witness))
 		tags = append(tags, "no-answer")
 		replace()
